@@ -19,7 +19,8 @@ Round 1 = `a-*`; round 2 = `b-*`, round 3 = `c-*` were asked for a mechanism dif
 round 4 = `d-*` were told the harness replays rich random histories with re-entry, faults and races and were asked for
 what such a harness would still miss; round 5 = `e-*` were asked for a realistic FEATURE pull request (30-150 changed
 lines: a new option, a cache, a helper, an optimisation) that breaks the property as an unintended side effect in a
-corner, reachable with all defaults. `r-*` are the opposite kind: refactorings that PRESERVE all properties (soundness
+corner, reachable with all defaults; round 6 = `f-*` got exactly the round-1 prompt again (property text only, no hints),
+as a fresh independent sample of "what a maintainer might break" against the checks as they had become. `r-*` are the opposite kind: refactorings that PRESERVE all properties (soundness
 round, see the end of this file).
 
 History of first contact (checks as they stood when the change arrived):
@@ -31,6 +32,7 @@ History of first contact (checks as they stood when the change arrived):
 | 3 (c) | 7 | 1 (c-c03 by C17) | 11 (c-c02 c-c04 c-c06 c-c07 c-c09 c-c10 c-c11 c-c12 c-c14 c-c16 c-c17) |
 | 4 (d) | 6 (d-c01 d-c02 d-c04 d-c07 d-c10 d-c14) | 1 (d-c09 by C06/C07) | 12 (d-c03 d-c05 d-c06 d-c08 d-c11 d-c12 d-c13 d-c15 d-c16 d-c17 d-c18 d-c19) |
 | 5 (e) | 10 (e-c01 e-c04 e-c05 e-c06 e-c08 e-c09 e-c10 e-c11 e-c14 e-c17) | 4 (e-c02 by C06, e-c07 by C08/C09, e-c13 by C16, e-c15 by C11) | 5 (e-c03 e-c12 e-c16 e-c18 e-c19; siblings tried: C04 C11 / C06 C08 C09 / - / - / -) |
+| 6 (f) | 17 | 0 | 2 (f-c11: id released when the response write fails after the bytes left; f-c15: serialisation moved behind the truncating open) |
 
 Every miss led to an extension of the target property's check (DESIGN.md 9.5). With the current checks all {n} are
 caught by the check of the property they were written against, and every minimised replay reproduces on the changed
